@@ -211,12 +211,12 @@ func runC15(r *R) {
 	}
 
 	var (
-		mu       sync.Mutex // nosim
-		auths    []c15Auth
+		mu        sync.Mutex // nosim
+		auths     []c15Auth
 		listItems = map[int][]float64{} // arrival index of a list request -> the items it was answered with
-		listSeq  int
-		faulted  = map[int]string{} // arrival index -> kind that actually fired
-		kindOf   = func(uri string) (int, string, string) {
+		listSeq   int
+		faulted   = map[int]string{} // arrival index -> kind that actually fired
+		kindOf    = func(uri string) (int, string, string) {
 			u, err := url.Parse(uri)
 			if err != nil {
 				return -1, "", ""
